@@ -22,9 +22,19 @@ pub(crate) struct SymbolTypes {
 }
 
 pub(crate) fn to_snake_case<S: AsRef<str>>(s: S) -> String {
-    s.as_ref()
+    let name = s
+        .as_ref()
         .with_boundaries(&[Boundary::LowerUpper])
-        .to_case(Case::Snake)
+        .to_case(Case::Snake);
+    // The result is used for generated fields, parameters and functions. A
+    // rule named `If` or `Type` must not yield a Rust keyword.
+    if syn::parse_str::<syn::Ident>(&name).is_err()
+        && syn::parse_str::<syn::Ident>(&format!("{name}_")).is_ok()
+    {
+        format!("{name}_")
+    } else {
+        name
+    }
 }
 
 pub(crate) fn to_pascal_case<S: AsRef<str>>(s: S) -> String {
